@@ -1392,6 +1392,11 @@ def _remove_conflicting_exprs(group):
     remaining = {e._name for e in group if e._name not in conflicts}
     reachable = {root._name}
     stack = [root]
+    # Discovery order: every kept member follows one of its remaining consumers,
+    # which FusedBlockwise._compute_block_ids relies on.  Filtering ``group``
+    # would keep the original order, in which a member may precede its only
+    # remaining consumer once a conflicting one was removed.
+    order = [root]
 
     while stack:
         expr = stack.pop()
@@ -1399,8 +1404,9 @@ def _remove_conflicting_exprs(group):
             if dep._name in remaining and dep._name not in reachable:
                 reachable.add(dep._name)
                 stack.append(expr_map[dep._name])
+                order.append(expr_map[dep._name])
 
-    return [e for e in group if e._name in reachable]
+    return order
 
 
 def optimize_blockwise_fusion_array(expr):
